@@ -6,7 +6,8 @@
  * poll, pthread_create/join of the unmodified call_rcu text is an event + scheduling point; the
  * helper threads created by the library are cooperative threads of the deterministic runtime.
  *
- * build: gcc -DRCU_MEMBARRIER|-DRCU_MB callrcu.c vrt.c vrt_compat_futex.c compat_arch.c
+ * build: gcc -DRCU_MEMBARRIER|-DRCU_MB|-DCALLRCU_QSBR|-DCALLRCU_BP callrcu.c vrt.c vrt_compat_futex.c compat_arch.c
+ *        (memb / mb: src/urcu.c; qsbr: src/urcu-qsbr.c; bp: src/urcu-bp.c – all include the same urcu-call-rcu-impl.h)
  * run:   VRT_MEMBARRIER=0|1 callrcu --seed N --workers W --ops N --ncpus C [--admin A] [--park] [--rt PCT] [--chain PCT]
  *        [--predefault] [--nobarrier] [--oneshot K] + runtime options (--pswitch, --strategy pct|sweep, --preempt-at/-tid/-len, --faults …)
  *
@@ -55,7 +56,67 @@ static int scn_pthread_join(pthread_t t, void **ret);
 #define HAVE_SCHED_GETCPU 1
 #define HAVE_SCHED_SETAFFINITY 1
 
+#if defined(CALLRCU_BP)
+/* bp: registration / synchronize_rcu block signals; reader slots live in the library's arena and are reused by
+ * later threads: (re)name the calling thread's slot before it releases any lock (before anybody can scan it) */
+static int bp_sigmask(int how, const sigset_t *set, sigset_t *old)
+{
+	(void)set; (void)old;
+	vrt_sig_block(how == SIG_BLOCK);
+	vrt_log(how == SIG_BLOCK ? "SIGMASK block" : "SIGMASK restore");
+	return 0;
+}
+#define pthread_sigmask(how, set, old) bp_sigmask(how, set, old)
+static void bp_name_my_slot(void);
+static int bp_unlock(pthread_mutex_t *m)
+{
+	bp_name_my_slot();
+	return vrt_mutex_unlock(m);
+}
+#undef pthread_mutex_unlock
+#define pthread_mutex_unlock(m) bp_unlock(m)
+#include "urcu-bp.c"
+#define FLAVOR "bp"
+#define HAS_MEMB urcu_bp_has_sys_membarrier
+static void name_reader(int tid)
+{
+	struct urcu_bp_reader *r = URCU_TLS(urcu_bp_reader);
+	if (r)
+		vrt_name(&r->ctr, sizeof(r->ctr), "reader%d.ctr", tid);
+}
+static void bp_name_my_slot(void) { name_reader(vrt_self()); }
+static const char *bp_resolve(const void *p)
+{
+	struct urcu_bp_reader *r = URCU_TLS(urcu_bp_reader);
+	if (r && p == (const void *)&r->ctr) {
+		name_reader(vrt_self());
+		return "x";
+	}
+	return NULL;
+}
+#elif defined(CALLRCU_QSBR)
+#include "urcu-qsbr.c"
+#define FLAVOR "qsbr"
+#define HAS_MEMB 0
+static void name_reader(int tid)
+{
+	vrt_name(&URCU_TLS(urcu_qsbr_reader).ctr, sizeof(unsigned long), "reader%d.ctr", tid);
+	vrt_name(&URCU_TLS(urcu_qsbr_reader).waiting, sizeof(int), "reader%d.waiting", tid);
+}
+#else
 #include "urcu.c"
+#ifdef RCU_MEMBARRIER
+#define FLAVOR "memb"
+#define HAS_MEMB urcu_memb_has_sys_membarrier
+#else
+#define FLAVOR "mb"
+#define HAS_MEMB 0
+#endif
+static void name_reader(int tid)
+{
+	vrt_name(&URCU_TLS(rcu_reader).ctr, sizeof(unsigned long), "reader%d.ctr", tid);
+}
+#endif
 
 #undef malloc
 #undef calloc
@@ -217,7 +278,7 @@ static void *tramp_fn(void *p)
 {
 	struct tramp t = *(struct tramp *)p;
 	free(p);
-	vrt_name(&URCU_TLS(rcu_reader).ctr, sizeof(unsigned long), "reader%d.ctr", vrt_self());
+	name_reader(vrt_self());
 	return t.fn(t.arg);
 }
 
@@ -280,6 +341,45 @@ static void do_unlock(void)
 	vrt_log("RET unlock");
 }
 
+/* ---- QSBR: quiescent states, offline around blocking calls ------------------------------------------ */
+#ifdef CALLRCU_QSBR
+#define IS_QSBR 1
+/* a registered online thread announces a quiescent state between two operations (never inside a section) */
+static void qs(void)
+{
+	if (URCU_TLS(urcu_qsbr_reader).registered && depth[vrt_self()] == 0 && _urcu_qsbr_read_ongoing()) {
+		vrt_log("CALL qs");
+		rcu_quiescent_state();
+		vrt_log("RET qs");
+	}
+}
+/* QSBR threads must be offline while they block on other threads (call_rcu_data_free() polls for the helper to stop,
+ * pthread_join): an online thread that does not announce quiescent states blocks every grace period, in particular the
+ * one the helper it waits for may be running */
+static int go_offline(void)
+{
+	if (!URCU_TLS(urcu_qsbr_reader).registered || !_urcu_qsbr_read_ongoing())
+		return 0;
+	vrt_log("CALL offline");
+	rcu_thread_offline();
+	vrt_log("RET offline");
+	return 1;
+}
+static void go_online(int was)
+{
+	if (!was)
+		return;
+	vrt_log("CALL online");
+	rcu_thread_online();
+	vrt_log("RET online");
+}
+#else
+#define IS_QSBR 0
+static void qs(void) { }
+static int go_offline(void) { return 0; }
+static void go_online(int was) { (void)was; }
+#endif
+
 /* ---- callbacks --------------------------------------------------------------------------------- */
 static void user_cb(struct rcu_head *rhp);
 
@@ -324,8 +424,10 @@ static void user_cb(struct rcu_head *rhp)
 	if (cb->chain > 0)
 		do_call_rcu(cb->chain - 1);
 	else if (vrt_rand() % 4 == 0) {
-		/* a callback may use read-side sections */
+		/* a callback may use read-side sections (the helper thread is a registered reader), also long ones */
 		do_lock();
+		if (park && vrt_rand() % 3 == 0)
+			vrt_sleep(100 + vrt_rand() % 500);
 		do_unlock();
 	}
 	cb->finished = 1;
@@ -375,9 +477,11 @@ static int do_set_cpu(int cpu, struct call_rcu_data *h)
 
 static void do_free(struct call_rcu_data *h)
 {
+	int was = go_offline();
 	vrt_log("CALL free crd%d", crd_id(h));
 	call_rcu_data_free(h);
 	vrt_log("RET free");
+	go_online(was);
 }
 
 static void do_sync(void)
@@ -389,17 +493,20 @@ static void do_sync(void)
 
 static void do_create_all(unsigned long flags)
 {
-	int r;
+	int r, was = go_offline();	/* may call call_rcu_data_free() when it loses a race for a slot */
 	vrt_log("CALL create_all %lu", flags);
 	r = create_all_cpu_call_rcu_data(flags);
 	vrt_log("RET create_all %d", r);
+	go_online(was);
 }
 
 static void do_free_all(void)
 {
+	int was = go_offline();
 	vrt_log("CALL free_all");
 	free_all_cpu_call_rcu_data();
 	vrt_log("RET free_all");
+	go_online(was);
 }
 
 static void set_my_cpu(int c)
@@ -412,7 +519,7 @@ static void *worker(void *arg)
 {
 	int w = (int)(long)arg, i, me = vrt_self();
 	struct call_rcu_data *myh = NULL;
-	vrt_name(&URCU_TLS(rcu_reader).ctr, sizeof(unsigned long), "reader%d.ctr", me);
+	name_reader(me);
 	vrt_log("WORKER %d", w);
 	set_my_cpu((int)(vrt_rand() % (vrt_cfg_ncpus > 0 ? vrt_cfg_ncpus : 1)));
 	vrt_log("CALL register");
@@ -420,6 +527,7 @@ static void *worker(void *arg)
 	vrt_log("RET register");
 	for (i = 0; i < nops; i++) {
 		unsigned c = vrt_rand() % 100;
+		qs();
 		if (c < 36) {
 			int chain = (int)(vrt_rand() % 100) < chainpct ? 1 + (int)(vrt_rand() % maxchain) : 0;
 			do_call_rcu(chain);
@@ -428,7 +536,7 @@ static void *worker(void *arg)
 		} else if (c < 64) {
 			if (depth[me] > 0) do_unlock();
 		} else if (c < 71) {
-			if (!nobarrier && (depth[me] == 0 || vrt_rand() % 4 == 0)) do_barrier();
+			if (!nobarrier && (depth[me] == 0 || (!IS_QSBR && vrt_rand() % 4 == 0))) do_barrier();
 		} else if (c < 79) {
 			if (!myh) {
 				myh = do_create((int)(vrt_rand() % 100) < rtpct ? URCU_CALL_RCU_RT : 0, -1);
@@ -479,23 +587,36 @@ static void *worker(void *arg)
  *      teardown of that helper: set_cpu_call_rcu_data(0, NULL); synchronize_rcu(); call_rcu_data_free(H).  With the
  *      read-side section call_rcu() holds across lookup and enqueue the grace period waits for T1, T1 enqueues first
  *      and the leftover is handed over; without it T1 enqueues into the freed (poisoned) structure = `uaf`;
- *   6: as 5 with free_all_cpu_call_rcu_data() as the teardown.
+ *   6: as 5 with free_all_cpu_call_rcu_data() as the teardown;
+ *   7: T1 queues one callback, waits (offline in qsbr) until it has run and the helper has gone back to sleep, then
+ *      calls synchronize_rcu(): a helper that sleeps online (qsbr without rcu_thread_offline()) blocks it for ever.
  * A lost wake-up leaves the final rcu_barrier() (or this one) blocked for ever = DEADLOCK of the runtime. */
 static void *oneshot_thread(void *arg)
 {
 	int me = vrt_self();
 	(void)arg;
-	vrt_name(&URCU_TLS(rcu_reader).ctr, sizeof(unsigned long), "reader%d.ctr", me);
+	name_reader(me);
 	vrt_log("WORKER 1");
 	vrt_log("CALL register");
 	rcu_register_thread();
 	vrt_log("RET register");
-	if (oneshot == 1 || oneshot == 4)
+	if (oneshot == 1 || oneshot == 4) {
+		int was = go_offline();
 		vrt_sleep(1000000);
-	if (oneshot >= 5)
+		go_online(was);
+	}
+	if (oneshot == 5 || oneshot == 6)
 		set_my_cpu(0);
 	w_started = 1;
 	do_call_rcu(oneshot == 4 ? 1 : 0);
+	if (oneshot == 7) {
+		int was = go_offline(), k;
+		for (k = 0; k < 200 && !cbs[1]->finished; k++)
+			vrt_sleep(20);
+		vrt_sleep(300);
+		go_online(was);
+		do_sync();
+	}
 	if (oneshot == 3)
 		do_barrier();
 	vrt_log("CALL unregister");
@@ -518,13 +639,14 @@ static void segv_uaf(int sig)
 static void *admin(void *arg)
 {
 	int a = (int)(long)arg, i, me = vrt_self();
-	vrt_name(&URCU_TLS(rcu_reader).ctr, sizeof(unsigned long), "reader%d.ctr", me);
+	name_reader(me);
 	vrt_log("ADMIN %d", a);
 	vrt_log("CALL register");
 	rcu_register_thread();
 	vrt_log("RET register");
 	for (i = 0; i < 6 && nworkers_done < nworkers; i++) {
 		unsigned c = vrt_rand() % 100;
+		qs();
 		unsigned long fl = (int)(vrt_rand() % 100) < rtpct ? URCU_CALL_RCU_RT : 0;
 		if (a == 0) {
 			if (c < 40) {
@@ -590,11 +712,16 @@ int main(int argc, char **argv)
 	if (nworkers < 1) nworkers = 1;
 	if (use_admin > 2) use_admin = 2;
 	vrt_name(&rcu_gp.ctr, sizeof(rcu_gp.ctr), "gp.ctr");
+#ifndef CALLRCU_BP
 	vrt_name(&rcu_gp.futex, sizeof(rcu_gp.futex), "gp.futex");
+	vrt_name(&gp_waiters.stack.head, sizeof(void *), "waiters.head");
+#else
+	vrt_unknown_hook = bp_resolve;
+	vrt_name(&init_lock, sizeof(init_lock), "init_lock");
+#endif
 	vrt_name(&rcu_gp_lock, sizeof(rcu_gp_lock), "gp_lock");
 	vrt_name(&rcu_registry_lock, sizeof(rcu_registry_lock), "registry_lock");
-	vrt_name(&gp_waiters.stack.head, sizeof(void *), "waiters.head");
-	vrt_name(&URCU_TLS(rcu_reader).ctr, sizeof(unsigned long), "reader0.ctr");
+	name_reader(0);
 	{
 		/* symbolic name for the main thread's stack (on-stack wait nodes of synchronize_rcu) */
 		char here;
@@ -604,11 +731,7 @@ int main(int argc, char **argv)
 	vrt_name(&call_rcu_mutex, sizeof(call_rcu_mutex), "call_rcu_mutex");
 	vrt_name(&default_call_rcu_data, sizeof(default_call_rcu_data), "dflt");
 	vrt_name(&per_cpu_call_rcu_data, sizeof(per_cpu_call_rcu_data), "percpu_ptr");
-#ifdef RCU_MEMBARRIER
-	vrt_raw("CFG flavor=memb membarrier=%d ncpus=%d workers=%d admin=%d", urcu_memb_has_sys_membarrier, vrt_cfg_ncpus, nworkers, use_admin);
-#else
-	vrt_raw("CFG flavor=mb membarrier=0 ncpus=%d workers=%d admin=%d", vrt_cfg_ncpus, nworkers, use_admin);
-#endif
+	vrt_raw("CFG flavor=" FLAVOR " membarrier=%d ncpus=%d workers=%d admin=%d", HAS_MEMB, vrt_cfg_ncpus, nworkers, use_admin);
 	if (prebarrier && !nobarrier) {
 		/* rcu_barrier() with no helper at all, then the default helper created eagerly */
 		do_barrier();
@@ -619,7 +742,7 @@ int main(int argc, char **argv)
 		nworkers = 1;
 		use_admin = 0;
 		wt[0] = vrt_spawn("worker", oneshot_thread, NULL);
-		if (oneshot >= 5) {
+		if (oneshot == 5 || oneshot == 6) {
 			struct call_rcu_data *h;
 			signal(SIGSEGV, segv_uaf);
 			h = do_create(0, 0);
